@@ -143,7 +143,12 @@ WEIGHTS = {
     "deep": dict(a=78, p=2, o=3, n=8, k=6, c=1, s=2),
     # the probe theory of harness/h_sat.cpp: T = declare a theory clause (tc), X = raise a conflict from outside propagation (tx)
     "probe": dict(a=50, p=3, o=10, n=6, k=8, c=2, s=2, T=9, X=10),
+    # not in FAMILIES (used by tools/c18_net.py): simplify_db interleaved with assume / pop; an `s` drawn above root level pops
+    # down to root first, so that clauses satisfied by learnt units / root propagation are removed and their literals met again
+    "simp": dict(a=42, p=3, o=18, n=5, k=5, c=7, s=20),
+    "learnsimp": dict(a=62, p=2, o=8, n=8, k=4, c=2, s=14),
 }
+SIMP_FAMILIES = ("simp", "learnsimp")
 
 
 def instance(rng, family):
@@ -168,6 +173,9 @@ def instance(rng, family):
     elif family == "hard":
         n = rng.randint(16, 40)
         clauses = fam_3cnf(rng, n)
+    elif family == "learnsimp":
+        n = rng.randint(8, 18)
+        clauses = fam_3cnf(rng, n) + [rand_clause(rng, n, 2) for _ in range(n // 2)]
     elif family == "probe":
         n = rng.randint(5, 12)
         clauses = [rand_clause(rng, n, rng.choice([1, 2, 2, 3, 3])) for _ in range(rng.randint(n // 2, 2 * n))]
@@ -270,6 +278,9 @@ def history(rng, drv, family=None, target_ops=None, unsteered=0.04):
                 o = rng.choice("onk") if lvl > 0 else rng.choice("ksc")
             elif o == "o" and lvl == 0:
                 o = "a" if free else "k"
+            elif o == "s" and lvl > 0 and family in SIMP_FAMILIES and q == 0:
+                while int(st["lvl"]) > 0 and st.get("rc") != "skip":
+                    st = do("o")
             elif o in "sc" and lvl > 0:
                 o = rng.choice("ao") if free else "o"
             elif o == "n" and lvl == 0:
